@@ -576,6 +576,10 @@ def gen_literal(rng):
         sc = rng.range(0, digs)
         s = ('%0*d' % (sc + 1, v))
         return s[:len(s) - sc] + ('.' + s[len(s) - sc:] if sc else '')
+    if rng.chance(0.3):
+        # just off a tie between two binary32 neighbours: rounding the decimal to binary64 first and then to binary32 goes wrong
+        return rng.choice(['16777217.000000001', '8192.00048828125000001', '16777219.0000000001', '33554434.00000001',
+                           '1.00000005960464477539062501', '4194304.2500000001', '0.50000002980232238769531251'])
     return rng.choice(['1000000', '123456.7', '0.0001', '0.00009', '99999.99', '3.141593', '2147483', '0.001'])
 
 
